@@ -77,6 +77,11 @@ func runSolver(sc solverCfg, timeout int, file string) (status string, out strin
 		first = l
 		break
 	}
+	if strings.Contains(out, "(error") {
+		// an ill-formed query (e.g. a sort error from a badly typed contract expression) decides
+		// nothing, whatever the solver prints after it
+		return "error", out, secs
+	}
 	switch first {
 	case "unsat", "sat", "unknown":
 		return first, out, secs
@@ -177,17 +182,34 @@ func solveOne(o *Obligation, dir string, timeout int, wantModel bool) SolveResul
 		// Every solver gave up within the quick limit. Typical obligations take well under a
 		// second, so a timeout is most often a loaded machine: try once more with a long limit
 		// before reporting the obligation as not discharged.
-		for _, sc := range solvers[:1] {
-			st, out, secs := runSolver(sc, 90, file)
-			r.Seconds += secs
-			if st == "unsat" || st == "sat" {
-				r.Status, r.Solver = st, sc.name+" (retry, long limit)"
-				if st == "sat" {
-					r.Output = out
+		// All solvers race with the long limit; the first decisive answer wins.
+		type ans struct {
+			st, out, name string
+			secs          float64
+		}
+		ch := make(chan ans, len(solvers))
+		for _, sc := range solvers {
+			go func(sc solverCfg) {
+				st, out, secs := runSolver(sc, 90, file)
+				ch <- ans{st, out, sc.name, secs}
+			}(sc)
+		}
+		var maxSecs float64
+		for range solvers {
+			a := <-ch
+			if a.secs > maxSecs {
+				maxSecs = a.secs
+			}
+			if a.st == "unsat" || a.st == "sat" {
+				r.Seconds += a.secs
+				r.Status, r.Solver = a.st, a.name+" (retry, long limit)"
+				if a.st == "sat" {
+					r.Output = a.out
 				}
 				return r
 			}
 		}
+		r.Seconds += maxSecs
 	}
 	return r
 }
